@@ -6,6 +6,9 @@ void stub_MakeEmpty(struct Manifold_Impl *self, int err) { ghost_made_empty = 1;
 _Bool stub_IsCancelled(void) { if (nondet_bool()) ghost_cancel = 1; return ghost_cancel; }
 /* a phase that takes the context: if it observes the cancellation it returns early with the object half built */
 void stub_ctx_phase(void) { if (stub_IsCancelled()) ghost_tainted = 1; }
+/* an unconditional consumer of the geometry (SetNormalsAndCoplanar): running it on the partial output of an interrupted
+ * SortGeometry reads a half-permuted mesh */
+void stub_consumer(void) { __CPROVER_assert(!ghost_tainted, "no consumer runs on the partial output of an interrupted phase"); }
 #define RESET() do { ghost_cancel = 0; ghost_tainted = 0; ghost_made_empty = 0; ghost_status = -1; } while (0)
 #define POST()                                                                                                             \
   do {                                                                                                                     \
@@ -33,7 +36,13 @@ void h_Hull(void) {
   Impl_Hull(&impl, pts, &ctx);
   POST();
 }
-#ifdef JOB_LevelSet_cancel
-void h_LevelSet(void) { HARNESS_END; }
-#endif
+void h_LevelSet(void) {
+  struct Manifold_Impl impl;
+  struct ExecutionContext_Impl ctx;
+  struct std_function_opaque sdf; struct Box bounds;
+  RESET();
+  HARNESS_END;
+  Impl_CreateLevelSet(&impl, sdf, bounds, nondet_double(), nondet_double(), nondet_double(), nondet_bool(), nondet_bool() ? &ctx : 0);
+  POST();
+}
 #endif
